@@ -383,6 +383,10 @@ def run(tier, seed):
         test_state(rep, st, tier, rng)
     reuse_history(rep, states, tier, rng)
     large_reuse(rep, tier, rng)
+    # uniform component grids on both sides of the 200-point threshold (two implementations of the right-hand side), data with samples exactly on
+    # grid lines: the right-hand side is the sample mean of every hat on all of them
+    from harness.drivers.c17_decache import uniform_rhs_paths
+    uniform_rhs_paths(rep, tier, rng, clause='C16_RhsIsSampleMean', lvs=[(3, 3), (4, 4), (3, 5)] + ([(5, 3), (4, 5)] if tier == 'thorough' else []))
     rep.cov['spec_states_tested_on_impl'] = len(states)
     rep.cov['exhaustive'] = tier == 'thorough'
     rep.cov['rule'] = ('states of HatSystems.tla: tensor products (D=1,2) of refinement-tree grids on an 8-lattice x 5 data sets, uniform grids of levels 1-2 in three dimensions x 2 data sets, (grid-line and boundary samples, class labels) '
